@@ -915,7 +915,7 @@ impl MDL {
         self.model_data.header.shape_value_count = self.model_data.shape_values.len() as u16;
 
         // update values
-        for i in 0..self.file_header.lod_count {
+        for i in 0..self.lods.len() {
             let mut vertex_offset = 0;
 
             for j in self.model_data.lods[i as usize].mesh_index
